@@ -84,6 +84,18 @@ func checkCompactValue(c uint32, withRange bool) (sub, what string) {
 		return "CalcWork", fmt.Sprintf("CalcWork(%#08x) = %s is not positive for a valid target", c, w.Text(16))
 	}
 	if withRange {
+		// the numbers returned belong to the caller (btcd's own initBlockNode
+		// accumulates the chain work into CalcWork's result in place): scribbling
+		// on them must not change what later calls return
+		n0 := new(big.Int).Set(n)
+		n.Add(n, big.NewInt(1))
+		w.Add(w, big.NewInt(1))
+		if n2 := blockchain.CompactToBig(c); n2.Cmp(n0) != 0 {
+			return "CompactToBig", fmt.Sprintf("CompactToBig(%#08x) = %s after the caller modified the number returned by an earlier call (%s then): results are shared", c, n2.Text(16), n0.Text(16))
+		}
+		if w2 := blockchain.CalcWork(c); w2.Cmp(wantW) != 0 {
+			return "CalcWork", fmt.Sprintf("CalcWork(%#08x) = %s after the caller added 1 to the number returned by an earlier call, GetBlockProof = %s: results are shared between calls", c, w2.Text(16), wantW.Text(16))
+		}
 		hdr := wire.BlockHeader{Version: 1, Bits: c}
 		for _, l := range rangeLimits {
 			var err error
